@@ -13,6 +13,7 @@ ASSUMPTIONS = [
     "partial: the theorem is about the discrete model (assembler/combiner/framer) and holds for all burst contents and all "
     "times inside the stated intervals; that the DSP delivers such bursts for audio with amplitude/DC/phase/offset/baud "
     "error/noise in the stated ranges at every rate is validated by sampling the real receiver, not proved",
+    "known finding F9 (known_findings.json): junk after the header voting to '<chars>-' extends a callsign shorter than 8 characters",
     "sampled envelope: rates 8000..96000 (standard and random), amplitude 100..31600, DC up to +/-5x the amplitude (|dc|+amp <= 32000), "
     "baud error up to +/-1 %, pause 1 s +/-5 %, SNR >= 20 dB or noiseless, lead-in 0.2..0.8 s, 1..31 locations",
 ]
@@ -77,7 +78,14 @@ def run_cases(ctx, cases):
             for e in [e for e in ev if e["kind"] == "burst"]:
                 k = len(e["data"]) - (len(tx.H) if e["data"][:4] == b"ZCZC" else 4)
                 stats["junk_lengths"][k] = stats["junk_lengths"].get(k, 0) + 1
-        if c:
+        if rxlib.is_f9(c):
+            stats["f9"] = stats.get("f9", 0) + 1
+            kd = [k for k in vlib.load_known_findings("C01") if k.get("class") == "F9"]
+            if kd and kd[0]["line"] not in ctx.known:
+                ctx.known.append(kd[0]["line"])
+            if not kd:
+                ctx.violation("property", c[len(rxlib.F9_MARK):].strip(), {"input": line, "tx": tx.describe()})
+        elif c:
             ctx.violation("property", "%s%s [%s]" % (c, "; DSP premise broken: " + pm if pm else "", tx.describe()),
                           {"input": line, "events": r["impl"][:3000], "tx": tx.describe(), "premise": pm})
         else:
@@ -95,6 +103,12 @@ def run(ctx):
     cases = [make_tx(rng, rate=r, nloc=n) for r in RATES for n in ([1, 31] if q else [1, 2, 5, 13, 31])]
     cases += [make_tx(rng) for _ in range(32 if q else 1200)]
     stats = run_cases(ctx, cases)
+    ctx.coverage["known_finding_F9_witness_reproduces"] = rxlib.run_f9_witness(ctx, "C01")
+    import asmlib
+    insts = [i for i in asmlib.theorem_instances(rng.fork("instances"), 240 if q else 6000) if i[0].startswith("C01")]
+    inst_ok, inst_names = asmlib.check_instances(ctx, insts)
+    ctx.coverage["theorem_instances_confirmed_on_impl"] = inst_ok
+    ctx.coverage["theorem_instances"] = inst_names
     ctx.coverage.update({
         "evaluations": len(cases), "distinct_nontrivial": stats["decoded_exactly"],
         "rule": "six-burst transmissions of grammar-generated headers (1..31 locations, every callsign length) at standard rates "
@@ -105,7 +119,7 @@ def run(ctx):
         "dsp_premise_holds": stats["premise_ok"], "all_six_bursts_intact": stats.get("all_six_intact", 0),
         "model_replay_equal": stats["model_equal"],
         "junk_bytes_after_data_histogram": {str(k): v for k, v in sorted(stats["junk_lengths"].items())},
-        "cases_by_rate": stats["by_rate"],
+        "cases_by_rate": stats["by_rate"], "known_finding_F9_hits": stats.get("f9", 0),
         "traces_validated_against_impl": stats["model_equal"],
     })
 
